@@ -294,14 +294,14 @@ def b_docs(u, rng, n):
     after it (++), or both (the two texts are merged into one)."""
     words = ["counter", "adds one", "reads", "the value", "starting at zero", "returns it", "x" * rng.range(1, 200)]
 
-    def doc(name):
-        how = rng.below(4)
+    def doc(name, how=None):
+        how = rng.below(4) if how is None else how
         pre = "\t+++ %s %s\n" % (name, rng.choice(words)) if how in (0, 2) else ""
         if how == 2 and rng.chance(1, 2):
             pre += "\t+++ %s\n" % rng.choice(words)
         post = "\t\t++ %s.\n" % rng.choice(words) if how in (1, 2) else ""
         return pre, post
-    d0, d1, d2 = doc("new()"), doc("bump!(c)"), doc("value(c)")
+    d0, d1, d2 = doc("new()"), doc("bump!(c)", 2), doc("value(c)")	# one export always carries both styles
     d = ("\n+++ Counter%(u)s is a small domain of counters.\nCounter%(u)s: with {\n"
          + d0[0] + "\tnew:   () -> %%;\n" + d0[1]
          + d1[0] + "\tbump!: %% -> %%;\n" + d1[1]
